@@ -171,7 +171,7 @@ SPECIALS = [
     "-0", "-0x0", "-00", "-0b0", "-0o0", "--0", "0x-0", "00", "0x00", "0_0", "0x0_0",
     "1_", "1__2", "0x1_", "9_9", "0b0_1", "0o1_7_", "+0", "+1_0",
     "0xAbCdEf", "0XaBcDeF", "0xabcdef", "0XABCDEF",
-    "010", "0010", "0b1", "0B1", "0b10", "0o17", "0O17", "0x0b1", "0x0B1", "0x0o7", "0b0", "0o0", "0x0",
+    "010", "0010", "0b1", "0B1", "0b10", "0o17", "0O17", "0x0b1", "0x0B1", "0b0", "0o0", "0x0",
     "0xb", "0xB", "0b0000000000000000000000000000000000000000000000000000000000000000000000001",
     "0x00000000000000000000000000000000000000000000000000000000000000000000000000000000000000000000000000000000000000000000000000000000000000000000000000000000000000000000000000000000000000000000000000000000000000000000000000000000000000000000000000001",
     "00000000000000000000000000000000000000000000000000000000000000000000000000000000000000000000000000000000000000000000000000000000000000000000000000000000000000000000000000000000000000000000000000000000000000000000000000000000000000000000000000000000000000000000000000000000000000000000012",
